@@ -256,7 +256,9 @@ func (g *Gen) ArrN(d int) string {
 		// sort terms / comparisons over values whose kind differs between documents
 		`mixed^(v).v`, `mixed^(>v).v`, `$sort(mixed.v)`, `mixed[v > 0].v`,
 		// `page` is a sub-slice of `nums` in some documents (shared backing array)
-		`page`, `$append(page, 99)`, `$append(page, nums)`, `$append(page, [7, 8, 9])`)
+		`page`, `$append(page, 99)`, `$append(page, nums)`, `$append(page, [7, 8, 9])`,
+		// `windows` holds two sub-slices of `nums` (array of arrays over one backing array)
+		`windows.*`, `$.windows.*`, `[windows].*`, `windows[0]`, `$append(windows[0], windows[1])`, `$reverse(windows).*`)
 	nodes := []func(d int) string{
 		func(d int) string { return `[` + g.Num(d) + `, ` + g.Num(d) + `]` },
 		func(d int) string { return `$map(` + g.ArrN(d) + `, function($v){$v * 2})` },
